@@ -330,3 +330,59 @@ PROPS['C06'] = dict(
                   'pool additions': lambda agg, d: agg['counters'].get('pool_additions_observed', 0) > 0,
                   'clear ledger checks': lambda agg, d: agg['counters'].get('clear_ledger_checks', 0) > 0},
 )
+
+
+# ---------------------------------------------------------------- C16
+def c16_jobs(tier):
+    return [
+        Job('json', 'c16', 'json', q(tier, 60000, 4000000), shim=True),
+        Job('msgpack', 'c16', 'msgpack', q(tier, 60000, 4000000), shim=True),
+        Job('json-small-debug', 'c16', 'json', q(tier, 20000, 1000000), defines={'ARDUINOJSON_SLOT_ID_SIZE': 1, 'ARDUINOJSON_STRING_LENGTH_SIZE': 1, 'ARDUINOJSON_DEBUG': 1}),
+    ]
+
+
+PROPS['C16'] = dict(
+    level='exploration',
+    rule='streams of 1..6 documents written back to back: JSON with every top-level kind (objects, arrays, strings, literals, numbers), no separator where unambiguous, '
+         'space / LF / CRLF / tab / blank lines otherwise (numbers always followed by whitespace or the end), MessagePack objects with random legal widths; read through a counting custom reader, '
+         'std::istream over a chunking streambuf (chunks 1,2,3,7,64) and an Arduino Stream; per call: returned document == i-th document, stream position == end of the document '
+         '(end or end+1 for a number), EmptyInput after the last one; the same prefix with a random continuation must give the same (code, document, position); distinct = distinct stream',
+    jobs=c16_jobs,
+    min_evaluations=dict(quick=100000, thorough=5000000),
+    technique='constructive stream workload with counting readers (exact byte positions) under ASan+UBSan; continuation-independence checked differentially',
+    level_text='Exploration: positions are exact (the readers count), documents are known by construction.',
+    level_note='A top-level number directly followed by a non-whitespace byte is outside the workload (don\'t-care 1).',
+    assumptions=COMMON_ASSUME,
+    extra_coverage={'calls': lambda agg, d: agg['counters'].get('calls', 0), 'continuations_checked': lambda agg, d: agg['counters'].get('continuations_checked', 0)},
+    must_observe={'calls': lambda agg, d: agg['counters'].get('calls', 0) > 0, 'numbers consuming one more byte': lambda agg, d: agg['counters'].get('numbers_consuming_one_more_byte', 0) > 0},
+)
+
+
+# ---------------------------------------------------------------- C15
+def c15_jobs(tier):
+    jobs = [
+        Job('grid', 'c15', 'grid', 0, timeout=q(tier, 900, 3600)),
+        Job('grid-debug-small', 'c15', 'grid', 0, defines={'ARDUINOJSON_DEBUG': 1, 'ARDUINOJSON_SLOT_ID_SIZE': 2, 'ARDUINOJSON_POOL_CAPACITY': 8}, timeout=q(tier, 900, 3600)),
+    ]
+    if tier == 'thorough':
+        jobs.append(Job('grid-O2', 'c15', 'grid', 0, flavour='asan2', timeout=3600))
+        jobs.append(Job('grid-comments', 'c15', 'grid', 0, defines={'ARDUINOJSON_ENABLE_COMMENTS': 1, 'ARDUINOJSON_ENABLE_NAN': 1}, timeout=3600))
+    return jobs
+
+
+PROPS['C15'] = dict(
+    level='exploration',
+    rule='EVERY limit L in 0..255 x 15 shapes (JSON arrays, objects, alternating, inside a member discarded by a filter, arrays not admitted by an object filter, with whitespace, single-quoted keys; '
+         'MessagePack fixarray/array16/array32/fixmap/map16/map32, arrays inside a discarded member) x depths {L-1, L, L+1, L+2} closed, L unclosed, 5000 and 20000 openings: returned code, nesting(), '
+         'and stack depth measured inside the reader (same build, same limit: thousands of openings must not use more stack than L+1..2 openings; half depth not more than the limit depth). '
+         'The classification of TooDeep against earlier syntax errors on arbitrary inputs is checked by C10 (JSON) and C09 (MessagePack). distinct = (limit, shape)',
+    jobs=c15_jobs,
+    exhaustive=lambda tier: True,
+    min_evaluations=dict(quick=7000, thorough=14000),
+    technique='exhaustive grid of limits and nesting shapes executed under ASan+UBSan with an in-process stack probe (lowest stack address seen by a custom reader), compared between two executions of the same build',
+    level_text='Exploration, complete for its grid (all 256 limits x 15 shapes x 8 depths); stack bound checked relatively, never against calibrated constants.',
+    level_note='Absolute stack size depends on the compiler and is not judged.',
+    assumptions=COMMON_ASSUME,
+    extra_coverage={'grid_calls': lambda agg, d: agg['counters'].get('grid_calls', 0), 'stack_comparisons': lambda agg, d: agg['counters'].get('stack_comparisons', 0)},
+    must_observe={'stack comparisons': lambda agg, d: agg['counters'].get('stack_comparisons', 0) > 0},
+)
